@@ -10,6 +10,7 @@ import (
 	"sort"
 	"strings"
 	"testing"
+	"time"
 
 	"com.tuntun.rangers/node/src/common"
 	"com.tuntun.rangers/node/src/consensus/access"
@@ -46,6 +47,8 @@ func TestMain(m *testing.M) {
 	stats.SetRule("one case = one group (n members, node's own DKG), one proposed header + previous beacon, one verifier node and a generated delivery schedule of verify messages " +
 		"(honest / valid share over another hash / hash and share mismatched / replayed shares / garbage or foreign points / wrong beacon share / non-member and malformed ids / exact duplicates; " +
 		"wire-decoded or in-memory; an initial part of the schedule may arrive while the party is still in round0); checked after every delivery; " +
+		"a second family (TestProposalHistories) embeds such a schedule in a history where round0 has really accepted the wire-decoded proposal and waits for the parent block while re-sent proposals in other encodings, " +
+		"identical duplicates, equivocating / foreign proposals and early verify messages arrive, then completes; " +
 		"non-trivial = at least one invalid (Byzantine) message is delivered before the k-th distinct valid one; distinct by (n, verifier, number of early messages, sequence of (sender, kind, transport))")
 	stats.Assume("Processor.OnMessageVerify routes by cvm.BlockHash: messages filed under bh.Hash reach this party, and so do messages filed under the party's initial key " +
 		"generatePartyKey(bh) while the party is still registered under it (round0 running / re-registration pending). Messages that are consistently about another hash X " +
@@ -177,6 +180,9 @@ type instance struct {
 	expGroupBeacon      []byte
 
 	partyKey     common.Hash
+	realProposal bool
+	castorSK     groupsig.Seckey
+	castSign     model.SignInfo
 	registered   []bool // share public key of member i is in the verifier's joined-group record
 	missingOwn   bool
 	missingOther int // -1 = none
@@ -201,8 +207,13 @@ func buildInstance(t failer, src source, n int) *instance {
 
 // buildInstanceKeys: ownMissing / otherMissing = 1 forces the verifier's own / one other member's share
 // public key to be absent from the verifier's joined-group record, 0 forces it present, -1 draws it.
-func buildInstanceKeys(t failer, src source, n int, ownMissing, otherMissing int) *instance {
+func buildInstanceKeys(t failer, src source, n int, ownMissing, otherMissing int, opts ...string) *instance {
 	in := &instance{n: n, k: model.Param.GetGroupK(n)}
+	for _, o := range opts {
+		if o == "real_proposal" { // the header is a complete proposal whose hash is its GenHash, signed by its castor
+			in.realProposal = true
+		}
+	}
 	if in.k < 1 || in.k > n {
 		t.Fatalf("GetGroupK(%d)=%d", n, in.k)
 	}
@@ -278,9 +289,27 @@ func buildInstanceKeys(t failer, src source, n int, ownMissing, otherMissing int
 	in.bh = &types.BlockHeader{Hash: in.hash, PreHash: preHash, Height: height, GroupId: in.gid.Serialize(),
 		Castor: src.Bytes("castor", 32), ProveValue: new(big.Int).SetBytes(src.Bytes("prove", 32))}
 	copy(in.bh.TxTree[:], src.Bytes("txtree", 32))
+	if in.realProposal {
+		base := int64(1700000000 + src.Int("pretime", 0, 1<<20))
+		in.preBH.CurTime = time.Unix(base, 0).UTC()
+		in.bh.PreTime = in.preBH.CurTime
+		in.bh.CurTime = time.Unix(base+int64(src.Int("castdelay", 1, 10)), 0).UTC()
+		in.bh.TotalQN = uint64(src.Int("totalqn", 1, 1000))
+		in.bh.Nonce = uint64(src.Int("nonce", 0, 1<<20))
+		in.hash = in.bh.GenHash()
+		in.bh.Hash = in.hash
+		in.castorSK = *groupsig.NewSeckeyFromBigInt(new(big.Int).SetBytes(src.Bytes("castorsk", 32)))
+		var forSign model.ConsensusCastMessage
+		forSign.BH = *in.bh
+		si, ok := model.NewSignInfo(in.castorSK, groupsig.DeserializeID(in.bh.Castor), &forSign)
+		if !ok {
+			t.Fatalf("harness: cannot sign the proposal")
+		}
+		in.castSign = si
+	}
 	// the key under which the Processor registers this party until round0 has finished (public: cast-message fields)
 	in.partyKey = common.BytesToHash(logical.VerifC15InitialPartyKey(*in.bh))
-	switch src.Int("initialrandom", 0, 2) { // what the proposer left in the fields the round fills in
+	switch src.Int("initialrandom", 0, 2) * map[bool]int{true: 0, false: 1}[in.realProposal] { // what the proposer left in the fields the round fills in
 	case 1:
 		in.bh.Random = src.Bytes("bhrandom", 64)
 	case 2:
@@ -342,6 +371,9 @@ type spec struct {
 	rnd      []byte
 	wire     bool
 	msgID    string // for in-memory delivery (the wire id is the hash of the bytes)
+
+	cast     string // non-empty: this item is a ConsensusCastMessage (proposal) of that variant
+	castWire []byte // its wire bytes
 }
 
 func (s spec) copyAs(kind string) spec {
@@ -588,9 +620,10 @@ func (in *instance) realise(s *spec) (msg *model.ConsensusVerifyMessage, dropped
 // ---------- schedule ----------
 
 type schedule struct {
-	msgs    []spec
-	nEarly  int // delivered while the party is still in round0
-	steered bool
+	msgs     []spec
+	nEarly   int // delivered while the party is still in round0
+	steered  bool
+	proposal bool // msgs[0] is the real proposal: round0 accepts it and waits for the parent block until completion
 }
 
 func genSchedule(in *instance, src source, t *rapid.T) schedule {
@@ -834,6 +867,21 @@ func run(in *instance, sc schedule) (out outcome) {
 	}()
 	deliver := func(i int) {
 		s := &sc.msgs[i]
+		if s.cast != "" {
+			ccm, dropped := realiseCast(s)
+			if dropped != "" {
+				out.dropped["cast_"+dropped]++
+				return
+			}
+			if r.countable < in.k {
+				if s.cast != "original" {
+					out.byzBeforeThresh++
+				}
+				out.kindsBeforeThres = append(out.kindsBeforeThres, s.kind)
+			}
+			in.party.Update(ccm)
+			return
+		}
 		msg, dropped := in.realise(s)
 		if dropped != "" {
 			out.dropped[dropped]++
@@ -861,7 +909,21 @@ func run(in *instance, sc schedule) (out outcome) {
 		out.fail = "shares counted before round1"
 		return
 	}
-	in.party.FinishRound0(in.bh, in.preBH, in.group, true)
+	if sc.proposal {
+		// round0 holds the real proposal and waits for its parent; now the parent arrives and the proposal passes
+		if h, waiting := in.party.WaitingProposal(); !waiting || h != in.hash.String() {
+			out.fail = fmt.Sprintf("harness: before completion round0 holds proposal %q, waiting=%v; expected the real proposal %s", h, waiting, in.hash.String())
+			return
+		}
+		held := in.party.CompleteWaitingRound0(in.preBH, in.group)
+		if held == nil || held.Hash != in.hash {
+			out.fail = "harness: round0 did not hold the real proposal at completion"
+			return
+		}
+		in.bh = held
+	} else {
+		in.party.FinishRound0(in.bh, in.preBH, in.group, true)
+	}
 	// the verifier's own message, as round0.normalPieceVerify builds it, is what the harness calls honest
 	if len(in.net.ownPieces) != 1 {
 		out.fail = fmt.Sprintf("normalPieceVerify sent %d messages", len(in.net.ownPieces))
@@ -873,13 +935,16 @@ func run(in *instance, sc schedule) (out outcome) {
 		out.fail = "harness: the honest message model differs from what round0.normalPieceVerify sends"
 		return
 	}
-	if out.fail = r.check(fmt.Sprintf("after round1.Start with %d early messages", sc.nEarly)); out.fail != "" {
+	if out.fail = r.check(fmt.Sprintf("after round0 completed and round1.Start replayed the stored ones of %d early messages", sc.nEarly)); out.fail != "" {
 		return
 	}
 	for i := sc.nEarly; i < len(sc.msgs); i++ {
 		deliver(i)
 		s := sc.msgs[i]
 		if out.fail = r.check(fmt.Sprintf("after message #%d (%s from %d, wire=%v)", i, s.kind, s.sender, s.wire)); out.fail != "" {
+			if sc.proposal {
+				out.fail += fmt.Sprintf(" [the party held the real proposal while %d messages arrived before round0 completed]", sc.nEarly)
+			}
 			return
 		}
 	}
@@ -896,6 +961,10 @@ func render(in *instance, sc schedule) []string {
 		e := ""
 		if i < sc.nEarly {
 			e = "early "
+		}
+		if s.cast != "" {
+			l = append(l, e+s.kind)
+			continue
 		}
 		l = append(l, fmt.Sprintf("%s%d:%s/%s", e, s.sender, s.kind, tr))
 	}
@@ -921,7 +990,7 @@ func TestShareCounting(t *testing.T) {
 		if out.byzBeforeThresh > 0 {
 			nt = fmt.Sprintf("%d|%d|%d|%v|%d|%s", n, in.self, sc.nEarly, in.missingOwn, in.missingOther, strings.Join(shape, ","))
 		}
-		classes := []string{fmt.Sprintf("n=%d,k=%d", n, in.k)}
+		classes := []string{"family:share_schedule", fmt.Sprintf("n=%d,k=%d", n, in.k)}
 		if out.finalised {
 			classes = append(classes, "outcome:finalised")
 		} else {
@@ -1011,6 +1080,249 @@ func TestShareCounting(t *testing.T) {
 			t.Fatalf("C15 violated: n=%d k=%d verifier=member %d block %s\nschedule: %v\n%s", n, in.k, in.self, in.hash.String(), shape, out.fail)
 		}
 	})
+}
+
+// ---------- histories with a real accepted proposal in round0 ----------
+
+func realiseCast(s *spec) (msg *model.ConsensusCastMessage, dropped string) {
+	defer func() {
+		if r := recover(); r != nil { // ConsensusHandler.Handle recovers and drops the message
+			msg, dropped = nil, "decode_panic_recovered_by_handler"
+		}
+	}()
+	m, e := cnet.UnMarshalConsensusCastMessage(s.castWire)
+	if e != nil || m == nil {
+		return nil, "decode_error"
+	}
+	return m, ""
+}
+
+func signPb(si model.SignInfo) *middleware_pb.SignData {
+	v := si.GetVersion()
+	return &middleware_pb.SignData{DataHash: si.GetDataHash().Bytes(), DataSign: si.GetSignature().Serialize(), SignMember: si.GetSignerID().Serialize(), Version: &v}
+}
+
+// mkCast builds one proposal message as wire bytes. Copies carry the same header and castor signature in
+// another encoding (other bytes => other message id); foreign proposals carry another header signed by the castor.
+func (in *instance) mkCast(t failer, src source, variant, tag string, original []byte) spec {
+	s := spec{sender: -1, cast: variant, kind: "proposal:" + variant}
+	enc := func(bh *types.BlockHeader, si model.SignInfo, groupID []byte, prove [][]byte) []byte {
+		b, err := proto.Marshal(&middleware_pb.ConsensusCastMessage{Bh: types.BlockHeaderToPb(bh), Sign: signPb(si), GroupID: groupID, ProveHash: prove})
+		if err != nil {
+			t.Fatalf("harness: marshal proposal: %v", err)
+		}
+		return b
+	}
+	foreign := func(mut func(h *types.BlockHeader)) []byte {
+		h := *in.bh
+		h.Signature, h.Random = nil, nil
+		mut(&h)
+		h.Hash = h.GenHash()
+		if h.Hash == in.hash {
+			t.Fatalf("harness: foreign proposal has the same hash")
+		}
+		var forSign model.ConsensusCastMessage
+		forSign.BH = h
+		si, _ := model.NewSignInfo(in.castorSK, groupsig.DeserializeID(h.Castor), &forSign)
+		return enc(&h, si, nil, nil)
+	}
+	clean := *in.bh
+	clean.Signature, clean.Random = nil, nil
+	switch variant {
+	case "original":
+		s.castWire = enc(&clean, in.castSign, nil, nil)
+	case "identical_duplicate":
+		s.castWire = append([]byte{}, original...)
+	case "copy_groupid_field": // the unused optional field GroupID filled in
+		s.castWire = enc(&clean, in.castSign, src.Bytes(tag+"_gid", src.Int(tag+"_gidlen", 1, 32)), nil)
+	case "copy_unknown_field": // an unknown varint field (number 15) appended
+		s.castWire = append(append([]byte{}, original...), 0x78, byte(src.Int(tag+"_unk", 0, 127)))
+		s.castWire = append(s.castWire, 0x78, byte(src.Int(tag+"_unk2", 0, 127)))
+	case "copy_prove_hashes": // the repeated field ProveHash filled in
+		s.castWire = enc(&clean, in.castSign, nil, [][]byte{src.Bytes(tag+"_ph", 32)})
+	case "equivocation": // same party key (height, parent, castor, prove value, tx tree, group), another block hash
+		s.castWire = foreign(func(h *types.BlockHeader) {
+			h.TotalQN += uint64(src.Int(tag+"_dqn", 1, 5))
+			h.Nonce += uint64(src.Int(tag+"_dn", 0, 5))
+		})
+	case "other_block": // a proposal for another height by another castor
+		s.castWire = foreign(func(h *types.BlockHeader) {
+			h.Height += uint64(src.Int(tag+"_dh", 1, 3))
+			h.Castor = src.Bytes(tag+"_castor", 32)
+		})
+	default:
+		panic("cast variant " + variant)
+	}
+	return s
+}
+
+var earlyCastVariants = []string{"copy_groupid_field", "copy_groupid_field", "copy_unknown_field", "copy_prove_hashes", "identical_duplicate", "equivocation", "other_block"}
+
+// genProposalSchedule: the verify-message schedule of genSchedule, embedded in a history in which round0
+// first accepts the real proposal (and waits for the parent), then receives the early part mixed with
+// re-sent / duplicated / foreign proposals, completes, and receives the late part (with a few more of them).
+func genProposalSchedule(in *instance, src source, t *rapid.T) schedule {
+	sc := genSchedule(in, src, t)
+	early, late := append([]spec{}, sc.msgs[:sc.nEarly]...), append([]spec{}, sc.msgs[sc.nEarly:]...)
+	// most histories get at least a few early verify messages
+	if len(early) == 0 && len(late) > 1 && src.Int("force_early", 0, 2) > 0 {
+		c := src.Int("force_early_n", 1, len(late)-1)
+		early, late = late[:c], late[c:]
+	}
+	// the one malformed shape kept out of the early part (see genSchedule) stays out of it here too
+	var keep []spec
+	for _, m := range early {
+		if strings.HasSuffix(m.kind, "oversize_id") {
+			late = append(late, m)
+		} else {
+			keep = append(keep, m)
+		}
+	}
+	early = keep
+	orig := in.mkCast(t, src, "original", "orig", nil)
+	for c, cnt := 0, src.Int("early_casts", 0, 3); c < cnt; c++ {
+		v := rapid.SampledFrom(earlyCastVariants).Draw(t, fmt.Sprintf("early_cast%d", c))
+		early = append(early, in.mkCast(t, src, v, fmt.Sprintf("ec%d", c), orig.castWire))
+	}
+	for c, cnt := 0, src.Int("late_casts", 0, 3)/3*src.Int("late_casts_n", 1, 2); c < cnt; c++ {
+		v := rapid.SampledFrom(earlyCastVariants).Draw(t, fmt.Sprintf("late_cast%d", c))
+		late = append(late, in.mkCast(t, src, v, fmt.Sprintf("lc%d", c), orig.castWire))
+	}
+	shuffle := func(l []spec, label string) []spec {
+		idx := make([]int, len(l))
+		for i := range idx {
+			idx[i] = i
+		}
+		idx = rapid.Permutation(idx).Draw(t, label)
+		out := make([]spec, len(l))
+		for pos, i := range idx {
+			out[pos] = l[i]
+		}
+		return out
+	}
+	early = append([]spec{orig}, shuffle(early, "early_order")...)
+	late = shuffle(late, "late_order")
+	// The proposal round0 holds at completion is the last one it processed (messages with an id it has
+	// already seen are rejected). The block being signed is the real one, so the last effective proposal
+	// of the early part must be the real header: otherwise a fresh copy follows (the castor / a member re-sends it).
+	seen := map[string]bool{}
+	lastReal := true
+	for _, m := range early {
+		if m.cast == "" || seen[string(m.castWire)] {
+			continue
+		}
+		seen[string(m.castWire)] = true
+		lastReal = m.cast != "equivocation" && m.cast != "other_block"
+	}
+	if !lastReal {
+		for {
+			c := in.mkCast(t, src, "copy_groupid_field", fmt.Sprintf("restore%d", len(seen)), orig.castWire)
+			if !seen[string(c.castWire)] {
+				early = append(early, c)
+				break
+			}
+			seen[string(c.castWire)+"x"] = true
+		}
+	}
+	sc.msgs = append(early, late...)
+	sc.nEarly = len(early)
+	sc.proposal = true
+	return sc
+}
+
+func proposalClasses(sc schedule) []string {
+	seen := map[string]bool{}
+	var out []string
+	add := func(c string) {
+		if !seen[c] {
+			seen[c] = true
+			out = append(out, c)
+		}
+	}
+	earlyVerify, earlyCasts := 0, 0
+	for i, m := range sc.msgs {
+		when := "late"
+		if i < sc.nEarly {
+			when = "early"
+		}
+		if m.cast != "" {
+			if m.cast != "original" {
+				add("proposal_history:" + m.cast + "," + when)
+				if i < sc.nEarly {
+					earlyCasts++
+				}
+			}
+		} else if i < sc.nEarly {
+			earlyVerify++
+		}
+	}
+	add(fmt.Sprintf("proposal_history:early_extra_proposals=%d", earlyCasts))
+	switch {
+	case earlyVerify == 0:
+		add("proposal_history:early_verify_messages=0")
+	case earlyVerify <= 3:
+		add("proposal_history:early_verify_messages=1-3")
+	default:
+		add("proposal_history:early_verify_messages=4+")
+	}
+	return out
+}
+
+// TestProposalHistories: the verifier's round0 has really accepted the proposal (round0.Update on the
+// wire-decoded ConsensusCastMessage; the parent block is not on the chain, so it waits) and, before round0
+// completes, receives re-sent proposals in other encodings, identical duplicates, proposals for another
+// hash and early verify messages of all kinds; then round0 completes and the rest of the schedule arrives.
+// Same oracle as TestShareCounting.
+func TestProposalHistories(t *testing.T) {
+	stats.Check(t, 260, 1200, func(t *rapid.T) {
+		src := rapidSrc{t}
+		n := src.Int("n", 5, 7)
+		in := buildInstanceKeys(t, src, n, -1, -1, "real_proposal")
+		sc := genProposalSchedule(in, src, t)
+		out := run(in, sc)
+
+		shape := render(in, sc)
+		nt := ""
+		if out.byzBeforeThresh > 0 {
+			nt = fmt.Sprintf("P|%d|%d|%d|%v|%d|%s", n, in.self, sc.nEarly, in.missingOwn, in.missingOther, strings.Join(shape, ","))
+		}
+		classes := append([]string{"family:proposal_history"}, proposalClasses(sc)...)
+		if out.finalised {
+			classes = append(classes, "proposal_history:finalised")
+		} else {
+			classes = append(classes, "proposal_history:below_threshold")
+		}
+		stats.Case(nt, classes...)
+		for d, c := range out.dropped {
+			stats.Count("dropped:"+d, int64(c))
+		}
+		stats.Count("messages_delivered", int64(len(sc.msgs)))
+		stats.Sample(map[string]interface{}{"family": "proposal_history", "n": n, "k": in.k, "self": in.self, "early": sc.nEarly, "schedule": shape,
+			"valid_senders": out.validSenders, "finalised": out.finalised})
+		if out.fail != "" {
+			t.Fatalf("C15 violated: n=%d k=%d verifier=member %d block %s\nhistory: %v\n%s", n, in.k, in.self, in.hash.String(), shape, out.fail)
+		}
+	})
+}
+
+// TestResentProposalExample: proposal accepted (waiting for the parent), one faulty member re-sends it in
+// another encoding, the parent arrives, k honest shares arrive: the block must finalise.
+func TestResentProposalExample(t *testing.T) {
+	for _, v := range []string{"copy_groupid_field", "copy_unknown_field", "copy_prove_hashes", "identical_duplicate"} {
+		src := &fixedSrc{ctr: 808}
+		in := buildInstanceKeys(t, src, 5, 0, 0, "real_proposal")
+		var sc schedule
+		orig := in.mkCast(t, src, "original", "orig", nil)
+		sc.msgs = append(sc.msgs, orig, in.mkCast(t, src, v, "copy", orig.castWire))
+		sc.nEarly, sc.proposal = 2, true
+		for i := 0; i < in.k; i++ {
+			sc.msgs = append(sc.msgs, in.mkSpec(src, "honest", i, fmt.Sprintf("h%d", i)))
+		}
+		out := run(in, sc)
+		if out.fail != "" || !out.finalised {
+			t.Fatalf("C15 violated: re-sent proposal (%s) while round0 waits for the parent: finalised=%v\nhistory: %v\n%s", v, out.finalised, render(in, sc), out.fail)
+		}
+	}
 }
 
 // ---------- probe for the recorded finding (hand-written minimal schedule) ----------
